@@ -24,38 +24,66 @@ pub fn openpty(
     let use_flags: OpenFlags = OpenFlags::O_RDWR | OpenFlags::O_NOCTTY;
     unsafe {
         let master = open(PTMX, use_flags)?;
-        let mut pty_num = 0;
-        let pty_num_addr = core::ptr::addr_of_mut!(pty_num);
-        // Todo: Maybe check if not zero and bail like musl does
-        ioctl(
-            master,
-            TermioFlags::TIOCSPTLCK.bits(),
-            pty_num_addr as usize,
-        )?;
-        ioctl(master, TermioFlags::TIOCGPTN.bits(), pty_num_addr as usize)?;
-        let slave = if let Some(name) = name {
-            open(name, use_flags)?
-        } else {
-            let bytename: u8 = pty_num.try_into().map_err(|_| {
-                crate::error::Error::no_code("Terminal number exceeded u8::MAX or was negative")
-            })?;
-            // To do this without an allocator have to format this string manually
-            // on the stack.
-            let name = create_pty_name(bytename);
-            open_raw(core::ptr::addr_of!(name) as usize, use_flags)?
+        let slave = match open_slave(master, name, use_flags) {
+            Ok(slave) => slave,
+            Err(e) => {
+                let _ = rusl::unistd::close(master);
+                return Err(e);
+            }
         };
-        if let Some(tio) = termios {
-            tcsetattr(slave, SetAction::NOW, tio)?;
-        }
-        if let Some(winsize) = winsize {
-            ioctl(
-                slave,
-                TermioFlags::TIOCSWINSZ.bits(),
-                core::ptr::addr_of!(winsize) as usize,
-            )?;
+        if let Err(e) = configure_slave(slave, termios, winsize) {
+            let _ = rusl::unistd::close(slave);
+            let _ = rusl::unistd::close(master);
+            return Err(e);
         }
         Ok(TerminalHandle { master, slave })
     }
+}
+
+unsafe fn open_slave(
+    master: Fd,
+    name: Option<&UnixStr>,
+    use_flags: OpenFlags,
+) -> crate::error::Result<Fd> {
+    let mut pty_num = 0;
+    let pty_num_addr = core::ptr::addr_of_mut!(pty_num);
+    // Todo: Maybe check if not zero and bail like musl does
+    ioctl(
+        master,
+        TermioFlags::TIOCSPTLCK.bits(),
+        pty_num_addr as usize,
+    )?;
+    ioctl(master, TermioFlags::TIOCGPTN.bits(), pty_num_addr as usize)?;
+    let slave = if let Some(name) = name {
+        open(name, use_flags)?
+    } else {
+        let bytename: u8 = pty_num.try_into().map_err(|_| {
+            crate::error::Error::no_code("Terminal number exceeded u8::MAX or was negative")
+        })?;
+        // To do this without an allocator have to format this string manually
+        // on the stack.
+        let name = create_pty_name(bytename);
+        open_raw(core::ptr::addr_of!(name) as usize, use_flags)?
+    };
+    Ok(slave)
+}
+
+unsafe fn configure_slave(
+    slave: Fd,
+    termios: Option<&Termios>,
+    winsize: Option<&WindowSize>,
+) -> crate::error::Result<()> {
+    if let Some(tio) = termios {
+        tcsetattr(slave, SetAction::NOW, tio)?;
+    }
+    if let Some(winsize) = winsize {
+        ioctl(
+            slave,
+            TermioFlags::TIOCSWINSZ.bits(),
+            core::ptr::addr_of!(winsize) as usize,
+        )?;
+    }
+    Ok(())
 }
 
 #[derive(Debug, Copy, Clone)]
